@@ -54,6 +54,9 @@ structure CrossFresh (ρ σ : Store) (pend : List (Key × Val)) (k : Key) : Prop
   disc : ∀ d v, (d, v) ∈ ρ.disc k →
       (σ.res d).value = v ∨ (ρ.res k).builtAt < (σ.res d).computedAt ∨ (d, v) ∈ pend
 
+/-- `sg` is a signature the program can give rule `k` (in some external state) -/
+def SigOf (P : Program) (k : Key) (sg : Nat) : Prop := ∃ env, P.sig env k = sg
+
 def active (s : St) : Prop := s.started = true
 
 structure TaskOk (P : Program) (s : St) (k : Key) : Prop where
@@ -81,9 +84,13 @@ structure Inv (P : Program) (s : St) : Prop where
   seqDone : ∀ k, s.status k = .done →
       (∀ q v, (q, v) ∈ s.mem.seq k → q.kind = 0 → s.status q.key = .done) ∧
       (∀ d v, (d, v) ∈ s.mem.disc k → s.status d = .done ∨ (d, v) ∈ s.pending)
+  /-- the ghost record is an execution of THE program `P` only for records whose signature is one
+  `P` can give the rule (records left by an earlier client program with another signature are never
+  used: the engine re-runs them, reason 1); epoch soundness holds for every record -/
   good : ∀ k, (s.mem.res k).builtAt ≠ 0 → inflight s k = false →
-      GoodRec P s.mem k ∧ FreshRec s.mem s.pending k
-  dbGood : ∀ k, (s.db.res k).builtAt ≠ 0 → GoodRec P s.db k ∧ FreshRec s.db s.pending k
+      (SigOf P k (s.mem.res k).sig → GoodRec P s.mem k) ∧ FreshRec s.mem s.pending k
+  dbGood : ∀ k, (s.db.res k).builtAt ≠ 0 →
+      (SigOf P k (s.db.res k).sig → GoodRec P s.db k) ∧ FreshRec s.db s.pending k
   dbCross : ∀ k, (s.db.res k).builtAt ≠ 0 → CrossFresh s.db s.mem s.pending k
   memDb : ∀ k, (s.mem.res k).builtAt ≠ 0 → inflight s k = false →
       (s.db.res k).builtAt ≠ 0 ∧ (s.db.res k).value = (s.mem.res k).value ∧
@@ -96,7 +103,12 @@ structure Inv (P : Program) (s : St) : Prop where
   or of a completion not yet processed; either way its `computedAt` bounds hold (memE) -/
   inflightActive : ∀ k, inflight s k = true → active s
   validOk : ∀ k, s.status k = .scanning → s.validSeen k = some true →
-      P.valid s.env k (s.mem.res k).value = true ∧ (s.mem.res k).builtAt ≠ 0
+      P.valid s.env k (s.mem.res k).value = true ∧ (s.mem.res k).builtAt ≠ 0 ∧
+      (s.mem.res k).sig = s.sigAt k
   validIdle : s.target.isSome = true → ∀ k, s.status k = .idle → s.validSeen k = none
+  /-- the signature the engine holds for a registered rule was computed by `P` (event `lookup`) -/
+  sigAtOk : ∀ k, s.registered k = true → SigOf P k (s.sigAt k)
+  /-- only registered rules are scanned -/
+  scanReg : ∀ k, s.status k = .scanning → s.registered k = true
 
 end LLBuild.Engine
